@@ -161,9 +161,6 @@ func (idx *WorkspaceIndex) addFileIndex(path string, fi *FileIndex) {
 	for _, date := range fi.Dates {
 		idx.dateCounts[date]++
 	}
-	for payee, postings := range fi.PayeeTemplates {
-		idx.payeeTemplates[payee] = postings
-	}
 	idx.refreshDerived()
 }
 
@@ -195,9 +192,6 @@ func (idx *WorkspaceIndex) removeFileIndex(path string, fi *FileIndex) {
 	}
 	for _, date := range fi.Dates {
 		idx.decrementBy(idx.dateCounts, date, 1)
-	}
-	for payee := range fi.PayeeTemplates {
-		delete(idx.payeeTemplates, payee)
 	}
 	idx.refreshDerived()
 }
@@ -231,6 +225,25 @@ func (idx *WorkspaceIndex) refreshDerived() {
 	idx.tags = sortedKeys(idx.tagCounts)
 	idx.tagValues = buildTagValues(idx.tagValueCounts)
 	idx.dates = sortedKeys(idx.dateCounts)
+	idx.payeeTemplates = buildPayeeTemplates(idx.fileIndexes)
+}
+
+// buildPayeeTemplates merges the per-file templates. A payee used in several
+// files keeps the template of the file whose path sorts last, whatever the
+// order in which the files were indexed, updated or removed.
+func buildPayeeTemplates(files map[string]*FileIndex) map[string][]analyzer.PostingTemplate {
+	paths := make([]string, 0, len(files))
+	for path := range files {
+		paths = append(paths, path)
+	}
+	sort.Strings(paths)
+	result := make(map[string][]analyzer.PostingTemplate)
+	for _, path := range paths {
+		for payee, postings := range files[path].PayeeTemplates {
+			result[payee] = postings
+		}
+	}
+	return result
 }
 
 func buildTagValues(counts map[string]map[string]int) map[string][]string {
